@@ -17,7 +17,11 @@
 (*   [k |-> "bytes"]  ([]byte)   [k |-> "barr", n]  ([n]byte): binary data *)
 (*        written as a string in Base 64 (RFC 4648 section 4, padded)      *)
 (*   [k |-> "struct", f]          f: sequence of fields                    *)
-(*        [name (code points), t, omitzero, omitempty, str, casing]        *)
+(*        [name (code points), t, omitzero, omitempty, str, casing, fmt]   *)
+(*        fmt: the `format` option ("" when absent)                        *)
+(*   [k |-> "dur"] time.Duration and [k |-> "time"] time.Time, modelled    *)
+(*        with the decimal formats sec/milli/micro/nano and unix/          *)
+(*        unixmilli/unixmicro/unixnano (a number with a fraction)          *)
 (*        (already resolved: embedding and name conflicts are Fields.tla)  *)
 (*                                                                         *)
 (* Go values G, always read together with their type                       *)
@@ -28,6 +32,8 @@
 (*   map [nil, m]  m: sequence of <<key, value>> sorted by the key's name  *)
 (*   any [nil] / [nil, dt, e]   dt: the dynamic type                       *)
 (*   bytes [nil, b (sequence of 0..255)]   barr [b]                        *)
+(*   dur [neg, mag] nanoseconds   time [neg, mag] nanoseconds since the    *)
+(*        Unix epoch (the instant; the zero time.Time is year 1)           *)
 (*   struct [f]  sequence of field values                                  *)
 (*                                                                         *)
 (* JSON values J (numbers keep their spelling: it decides conversion)      *)
@@ -56,19 +62,22 @@ SliceA == [k |-> "slice", e |-> AnyT]
 MapSA == [k |-> "map", key |-> StrT, e |-> AnyT]
 
 \* where a value stands: under a `string` tag option; as an object name
-NoSt == [tag |-> FALSE, key |-> FALSE]
-KeySt == [tag |-> FALSE, key |-> TRUE]
+NoSt == [tag |-> FALSE, key |-> FALSE, fmt |-> ""]
+KeySt == [tag |-> FALSE, key |-> TRUE, fmt |-> ""]
 
 RECURSIVE CpLess(_, _)
 CpLess(a, b) == IF a = <<>> THEN b # <<>> ELSE IF b = <<>> THEN FALSE
                 ELSE IF a[1] # b[1] THEN a[1] < b[1] ELSE CpLess(Tail(a), Tail(b))
 
 \* ------------------------------------------------------------------ zero values
+\* time.Time{}: January 1, year 1, 00:00 UTC = -62135596800 s
+ZeroTime == [neg |-> TRUE, mag |-> <<6, 2, 1, 3, 5, 5, 9, 6, 8, 0, 0, 0, 0, 0, 0, 0, 0, 0, 0, 0>>]
 RECURSIVE Zero(_)
 Zero(t) ==
     CASE t.k = "bool" -> [b |-> FALSE]
       [] t.k = "str" -> [s |-> <<>>]
-      [] t.k = "int" -> [neg |-> FALSE, mag |-> <<0>>]
+      [] t.k \in {"int", "dur"} -> [neg |-> FALSE, mag |-> <<0>>]
+      [] t.k = "time" -> ZeroTime
       [] t.k = "float" -> [neg |-> FALSE, d |-> <<>>, n |-> 0]
       [] t.k = "slice" -> [nil |-> TRUE, e |-> <<>>]
       [] t.k = "bytes" -> [nil |-> TRUE, b |-> <<>>]
@@ -83,12 +92,17 @@ RECURSIVE IsZero(_, _)
 IsZero(t, v) ==
     CASE t.k = "bool" -> ~v.b
       [] t.k = "str" -> v.s = <<>>
-      [] t.k = "int" -> v.mag = <<0>>
+      [] t.k \in {"int", "dur"} -> v.mag = <<0>>
+      [] t.k = "time" -> v = ZeroTime
       [] t.k = "float" -> v.d = <<>>
       [] t.k \in {"slice", "map", "ptr", "any", "bytes"} -> v.nil
       [] t.k = "barr" -> \A i \in 1..t.n : v.b[i] = 0
       [] t.k = "array" -> \A i \in 1..t.n : IsZero(t.e, v.e[i])
       [] t.k = "struct" -> \A i \in 1..Len(t.f) : IsZero(t.f[i].t, v.f[i])
+
+\* omitzero asks the field type's IsZero method when there is one: time.Time has, and a
+\* *time.Time inherits it (a pointer to the zero time is "zero")
+FieldIsZero(t, v) == IF t.k = "ptr" /\ t.e.k = "time" THEN v.nil \/ v.e = ZeroTime ELSE IsZero(t, v)
 
 \* values known to encode as an empty JSON value without encoding them
 KnownEmpty(t, v) ==
@@ -126,6 +140,44 @@ EmptyJ(j) == \/ j.t = "null"
              \/ j.t = "arr" /\ j.e = <<>>
              \/ j.t = "obj" /\ j.m = <<>>
 
+\* ------------------------------------------------------------------ decimal formats of durations and instants
+\* A count of nanoseconds written in units of 10^k ns: the whole units, then - unless zero -
+\* a point and the remaining digits without trailing zeros.  k = 9 6 3 0 for sec/unix,
+\* milli/unixmilli, micro/unixmicro, nano/unixnano.
+FmtK(f) == CASE f \in {"sec", "unix"} -> 9 [] f \in {"milli", "unixmilli"} -> 6
+             [] f \in {"micro", "unixmicro"} -> 3 [] f \in {"nano", "unixnano"} -> 0 [] OTHER -> -1
+DecText(neg, mag, k) ==
+    LET digs == IF Len(mag) <= k THEN [i \in 1..(k + 1 - Len(mag)) |-> 0] \o mag ELSE mag
+        whole == SubSeq(digs, 1, Len(digs) - k)
+        frac == StripRight(SubSeq(digs, Len(digs) - k + 1, Len(digs))) IN
+    (IF neg /\ mag # <<0>> THEN <<45>> ELSE <<>>) \o Chars(whole)
+    \o (IF frac = <<>> THEN <<>> ELSE <<46>> \o Chars(frac))
+
+\* reading it back: an optional minus, an integer without leading zeros, optionally a point and
+\* at least one digit; no exponent.  Digits beyond the unit's precision are dropped.  "-0" is
+\* refused (the sign of the result would not be the sign written).  bound(neg): largest magnitude
+DecParse(lit, k, posBound, negBound) ==
+    LET neg == lit # <<>> /\ lit[1] = 45
+        body == IF neg THEN Tail(lit) ELSE lit
+        dots == {i \in 1..Len(body) : body[i] = 46}
+        cut == IF dots = {} THEN Len(body) + 1 ELSE CHOOSE i \in dots : \A j \in dots : i <= j
+        w == SubSeq(body, 1, cut - 1)
+        f == SubSeq(body, cut + 1, Len(body))
+        digitsOnly(x) == \A i \in 1..Len(x) : IsDigit(x[i])
+        syntax == /\ w # <<>> /\ digitsOnly(w) /\ (Len(w) > 1 => w[1] # 48)
+                  /\ (dots # {} => f # <<>> /\ digitsOnly(f))
+        fk == [i \in 1..k |-> IF i <= Len(f) THEN f[i] - 48 ELSE 0]
+        all == StripLeft([i \in 1..Len(w) |-> w[i] - 48] \o fk)
+        mag == IF all = <<>> THEN <<0>> ELSE all IN
+    IF ~syntax THEN [ok |-> FALSE]
+    ELSE IF neg /\ mag = <<0>> THEN [ok |-> FALSE]
+    ELSE IF ~MagLeq(mag, IF neg THEN negBound ELSE posBound) THEN [ok |-> FALSE]
+    ELSE [ok |-> TRUE, v |-> [neg |-> neg, mag |-> mag]]
+
+\* int64 nanoseconds; instants whose seconds fit an int64 (the drivers stay below 2^62 s on the
+\* negative side, where the exact bound depends on the fraction)
+MaxTimeMag == MaxI64 \o <<9, 9, 9, 9, 9, 9, 9, 9, 9>>
+
 \* ------------------------------------------------------------------ Base 64 (RFC 4648 section 4)
 B64Char(i) == IF i < 26 THEN 65 + i ELSE IF i < 52 THEN 71 + i ELSE IF i < 62 THEN i - 4 ELSE IF i = 62 THEN 43 ELSE 47
 B64Val(c) == IF c \in 65..90 THEN c - 65 ELSE IF c \in 97..122 THEN c - 71 ELSE IF c \in 48..57 THEN c + 4
@@ -159,10 +211,20 @@ B64Dec(s) ==
 
 RECURSIVE Marshal(_, _, _, _)
 Marshal(t, v, o, st) ==
+    \* a `format` option on a type that knows no formats is an error (the formats of byte
+    \* strings, floats, slices and maps are not modelled: the universes do not use them)
+    IF st.fmt # "" /\ t.k \notin {"dur", "time", "ptr"} THEN ERR
     \* the `string` option is for numbers (possibly behind pointers): anything else is an error
-    IF t.k = "bool" THEN (IF st.key \/ st.tag THEN ERR ELSE [t |-> "bool", b |-> v.b])
+    ELSE IF t.k = "bool" THEN (IF st.key \/ st.tag THEN ERR ELSE [t |-> "bool", b |-> v.b])
     ELSE IF t.k = "str" THEN (IF st.tag THEN ERR ELSE [t |-> "str", s |-> v.s])
     ELSE IF t.k = "int" THEN NumJ(IntLit(v), o.sn \/ st.tag \/ st.key)
+    \* a duration has no default representation; the decimal formats are numbers
+    ELSE IF t.k = "dur" THEN
+         (IF st.fmt \notin {"sec", "milli", "micro", "nano"} THEN ERR
+          ELSE NumJ(DecText(v.neg, v.mag, FmtK(st.fmt)), o.sn \/ st.tag \/ st.key))
+    ELSE IF t.k = "time" THEN
+         (IF st.fmt \notin {"unix", "unixmilli", "unixmicro", "unixnano"} THEN ERR   \* (layouts: not modelled)
+          ELSE NumJ(DecText(v.neg, v.mag, FmtK(st.fmt)), o.sn \/ st.tag \/ st.key))
     ELSE IF t.k = "float" THEN NumJ(FloatLit(v), o.sn \/ st.tag \/ st.key)
     ELSE IF t.k = "ptr" THEN (IF v.nil THEN (IF st.key THEN ERR ELSE JNull) ELSE Marshal(t.e, v.e, o, st))
     \* composites are no numbers and no names
@@ -183,9 +245,9 @@ Marshal(t, v, o, st) ==
          FoldLeft(LAMBDA acc, i :
                     IF IsErr(acc) THEN acc
                     ELSE LET F == t.f[i]  fv == v.f[i] IN
-                         IF (F.omitzero \/ o.oz) /\ IsZero(F.t, fv) THEN acc
+                         IF (F.omitzero \/ o.oz) /\ FieldIsZero(F.t, fv) THEN acc
                          ELSE IF F.omitempty /\ KnownEmpty(F.t, fv) THEN acc
-                         ELSE LET j == Marshal(F.t, fv, o, [tag |-> F.str, key |-> FALSE]) IN
+                         ELSE LET j == Marshal(F.t, fv, o, [tag |-> F.str, key |-> FALSE, fmt |-> F.fmt]) IN
                               IF IsErr(j) THEN ERR
                               ELSE IF F.omitempty /\ EmptyJ(j) THEN acc
                               ELSE [acc EXCEPT !.m = Append(@, <<F.name, j>>)],
@@ -260,10 +322,20 @@ Unmarshal(t, old, j, o, st) ==
          IF j.t = "null" THEN OK([nil |-> TRUE])
          ELSE LET r == Unmarshal(t.e, IF old.nil THEN Zero(t.e) ELSE old.e, j, o, st) IN
               IF r.ok THEN OK([nil |-> FALSE, e |-> r.v]) ELSE FAIL
-    ELSE IF t.k \notin {"int", "float"} /\ st.tag THEN FAIL
+    ELSE IF st.fmt # "" /\ t.k \notin {"dur", "time"} THEN FAIL
+    ELSE IF t.k \notin {"int", "float", "dur", "time"} /\ st.tag THEN FAIL
+    ELSE IF t.k \in {"dur", "time"} /\ FmtK(st.fmt) < 0 THEN FAIL
+    ELSE IF t.k \in {"dur", "time"} /\ (t.k = "dur") # (st.fmt \in {"sec", "milli", "micro", "nano"}) THEN FAIL
     ELSE IF j.t = "null" THEN OK(Zero(t))
     ELSE IF t.k = "bool" THEN (IF j.t = "bool" THEN OK([b |-> j.b]) ELSE FAIL)
     ELSE IF t.k = "str" THEN (IF j.t = "str" THEN OK([s |-> j.s]) ELSE FAIL)
+    ELSE IF t.k \in {"dur", "time"} THEN
+         LET stringify == o.sn \/ st.tag \/ st.key
+             lit == IF stringify THEN (IF j.t = "str" THEN j.s ELSE <<>>)
+                    ELSE (IF j.t = "num" THEN j.lit ELSE <<>>)
+             r == IF t.k = "dur" THEN DecParse(lit, FmtK(st.fmt), MaxI64, Pow2(63))
+                  ELSE DecParse(lit, FmtK(st.fmt), MaxTimeMag, MaxTimeMag) IN
+         IF lit = <<>> \/ ~r.ok THEN FAIL ELSE OK(r.v)
     ELSE IF t.k \in {"int", "float"} THEN
          LET stringify == o.sn \/ st.tag \/ st.key
              lit == IF stringify THEN (IF j.t = "str" THEN j.s ELSE <<>>)
@@ -329,7 +401,7 @@ Unmarshal(t, old, j, o, st) ==
                                     ELSE [acc EXCEPT !.unk = @ \cup {mem[1]}])
                               ELSE LET i == CHOOSE x \in (IF exact # {} THEN exact ELSE folded) : TRUE IN
                                    IF ~o.ad /\ i \in acc.seen THEN [acc EXCEPT !.ok = FALSE]
-                                   ELSE LET vr == Unmarshal(t.f[i].t, acc.f[i], mem[2], o, [tag |-> t.f[i].str, key |-> FALSE]) IN
+                                   ELSE LET vr == Unmarshal(t.f[i].t, acc.f[i], mem[2], o, [tag |-> t.f[i].str, key |-> FALSE, fmt |-> t.f[i].fmt]) IN
                                         IF ~vr.ok THEN [acc EXCEPT !.ok = FALSE]
                                         ELSE [acc EXCEPT !.f[i] = vr.v, !.seen = @ \cup {i}],
                        [ok |-> TRUE, f |-> old.f, seen |-> {}, unk |-> {}], j.m) IN
